@@ -29,7 +29,7 @@ LEVEL_TEXT = (
     "locations, subproc_toks results), the recovery loop of Execer._parse_ctx_free/_try_parse makes at most 2·B·(1+2·B) parser "
     "calls, B = 2·lines+10, never recurses deeper than two levels, assuming each callee returns; the control skeleton (retry "
     "counter test + decrement before any `continue`, no other write to the counter, recursion guarded by `not logical_input`) is "
-    "regenerated from the source on every run and must satisfy a decidable shape obligation. (2) get_logical_line / "
+    "regenerated from the source on every run and must satisfy a decidable shape obligation; the counter's INITIAL VALUE is translated too and must grant at least 2·L+1 rounds (C03_budget_suffices: enough for L lines of two segments each). (2) get_logical_line / "
     "replace_logical_line: bounds, the window is the maximal run of joined lines containing the index when the two scans agree "
     "(C03_get_window; C03_get_window_cex: they need not), replacing keeps the line count, touches nothing outside the window and "
     "loses no character of the logical line (C03_replace_content), and is the identity on what get returned when every continued "
@@ -885,6 +885,111 @@ def report(ctx, name, case, r, v, clean):
         obs, why, key)
 
 
+# ====================================================================================== streams: long scripts, comment corners
+def stream_long(ctx, n, name="long-scripts"):
+    ctx.stream_rule(
+        name,
+        "LONG inputs: 10-40 lines, each a bare chain of one or two plain commands none of which is valid Python (`echo a b && t0 c d`), "
+        "mixed with Python lines, partly inside an indented block: every segment costs one round of the recovery loop, so this is where "
+        "the retry budget (C03_budget_suffices: 2·L+1 rounds are always granted) meets real work; bare and hand-wrapped source must "
+        "behave alike; the retry-cap finding does not apply (at most 2 segments per line); non-trivial = more than 20 wraps needed",
+    )
+    words = ["a", "bb", "/tmp/x", "a.b", "1", "c d".split()[0], "x/y"]
+    cases = []
+    for _ in range(n):
+        nl = ctx.rng.randint(10, 40)
+        lb, le = [], []
+        ind = ""
+        wraps = 0
+        for i in range(nl):
+            k = ctx.rng.random()
+            if k < 0.08:
+                lb.append(ind + "_v = 1")
+                le.append(ind + "_v = 1")
+                continue
+            if k < 0.14 and not ind and i < nl - 2:
+                lb.append("if True:")
+                le.append("if True:")
+                ind = ctx.rng.choice(["  ", "    "])
+                continue
+            if k < 0.2 and ind and lb and not lb[-1].endswith(":"):
+                ind = ""
+            segs = [[ctx.rng.choice(ALL_CMDS)] + [ctx.rng.choice(words) for _ in range(ctx.rng.randint(2, 3))] for _ in range(ctx.rng.choice([1, 2, 2, 2]))]
+            wraps += len(segs)
+            op = " " + ctx.rng.choice(OPS) + " "
+            lb.append(ind + op.join(" ".join(sg) for sg in segs))
+            le.append(ind + op.join("![" + " ".join(sg) + "]" for sg in segs))
+        if lb[-1].endswith(":"):
+            lb.append(ind + "pass")
+            le.append(ind + "pass")
+        cases.append(({"bare": "\n".join(lb) + "\n", "expl": "\n".join(le) + "\n"}, wraps, nl))
+    res = run_pairs([c for c, _, _ in cases], timeout=60)
+    for (pair, wraps, nl), r in zip(cases, res):
+        ctx.case(name, pair["bare"], wraps > 20, {"bare": pair["bare"][:300], "lines": nl, "wraps": wraps} if len(ctx.streams[name]) and ctx.streams[name]["evaluations"] < 2 else None)
+        ctx.count(f"{name}/lines={10 * (nl // 10)}-{10 * (nl // 10) + 9}")
+        judge_pair(ctx, name, pair, r)
+
+
+def judge_pair(ctx, name, pair, r):
+    v = verdict(r)
+    if v == "same":
+        return
+    if v == "harness":
+        raise common.InfraError(f"C03 worker failed on {pair['bare']!r}: {r['__exc__'][-600:]}")
+    if v == "explicit-rejected":
+        ctx.count(f"{name}/explicit-form-rejected (not a well-formed command: skipped)")
+        return
+    if v == "HANG":
+        pr = common.map_in_child(_parse_codes, [codes(pair["bare"]), codes(pair["expl"])], per_item_timeout=60, label="c03-parse")
+        if common.HANG not in pr:
+            ctx.count(f"{name}/hang while RUNNING the pipeline (both forms parse; judged by C09, not here)")
+            return
+    else:
+        again = run_pairs([pair, pair], timeout=60)
+        if any(verdict(x) != v for x in again):
+            ctx.count(f"{name}/unstable-difference (not reproduced)")
+            return
+    ctx.count(f"{name}/difference/NEW")
+    obs = r if r == common.HANG else {"bare": {k: r["bare"][k] for k in ("log", "files", "exc")}, "explicit": {k: r["expl"][k] for k in ("log", "files", "exc")}}
+    ctx.spec_failure({"stream": name, "bare": pair["bare"], "explicit": pair["expl"]}, obs,
+                     "a bare command line does not behave like its explicit ![...] form (commands run, arguments, redirect targets or raised error differ)", None)
+
+
+def stream_comment_corners(ctx, n, name="comment-after-literal"):
+    ctx.stream_rule(
+        name,
+        "a command whose last argument is a quoted literal with escapes (`\"a\\\\\"`, `'it\\'s'`, `\"q\\\"x\"`, a literal ending in an escaped backslash) "
+        "followed by a trailing comment that ENDS IN A BACKSLASH (not a continuation: it is inside the comment), then a second command on "
+        "the next line; also the same literal followed by a real continuation; bare vs hand-wrapped; non-trivial = the literal ends with an "
+        "escaped backslash or holds an escaped quote",
+    )
+    lits = ['"a\\\\"', "'a\\\\'", "'it\\'s'", '"q\\"x"', '"a b"', "'x'", '"\\\\\\""', "'#'", '"a # b"', "r'a\\\\'", '"\\\\" "b\\\\"']
+    pairs, keys = [], []
+    for _ in range(n):
+        lit = ctx.rng.choice(lits)
+        c1, c2 = ctx.rng.choice(OK_CMDS), ctx.rng.choice(ALL_CMDS)
+        w = ctx.rng.choice(["a", "bb", "x y"])
+        shape = ctx.rng.choice(["comment-backslash", "comment-backslash", "continuation", "comment"])
+        ind = ctx.rng.choice(["", "", "    "])
+        head = "if True:\n" if ind else ""
+        if shape == "comment-backslash":
+            b = f"{head}{ind}{c1} {lit} # note \\\n{ind}{c2} {w}\n"
+            e = f"{head}{ind}![{c1} {lit}] # note \\\n{ind}![{c2} {w}]\n"
+        elif shape == "comment":
+            b = f"{head}{ind}{c1} {lit} # note\n{ind}{c2} {w}\n"
+            e = f"{head}{ind}![{c1} {lit}] # note\n{ind}![{c2} {w}]\n"
+        else:
+            b = f"{head}{ind}{c1} {lit} \\\n{ind}  {w}\n{ind}{c2} {w}\n"
+            e = f"{head}{ind}![{c1} {lit} \\\n{ind}  {w}]\n{ind}![{c2} {w}]\n"
+        pairs.append({"bare": b, "expl": e})
+        keys.append((shape, lit))
+    res = run_pairs(pairs)
+    for pair, (shape, lit), r in zip(pairs, keys, res):
+        ctx.case(name, pair["bare"], "\\\\" in lit or "\\'" in lit or '\\"' in lit, {"bare": pair["bare"]} if ctx.streams[name]["evaluations"] < 3 else None)
+        ctx.count(f"{name}/{shape}")
+        judge_pair(ctx, name, pair, r)
+
+
 # ====================================================================================== stream: detection always terminates
 def gen_any_string(rng, k):
     kind = k % 8
@@ -1341,11 +1446,15 @@ def run(ctx):
     stream_wrap(ctx, ctx.n(1200, 20000))
     stream_diff(ctx, ctx.n(900, 14000), "clean-grammar", clean=True)
     stream_diff(ctx, ctx.n(240, 3000), "full-grammar", clean=False)
+    stream_long(ctx, ctx.n(16, 200))
+    stream_comment_corners(ctx, ctx.n(120, 1500))
     stream_any_string(ctx, ctx.n(800, 12000))
 
 
 def search(ctx, reason):
     ctx.extra["search_reason"] = reason
+    stream_comment_corners(ctx, ctx.n(400, 1500), name="search:comment-after-literal")
+    stream_long(ctx, ctx.n(30, 200), name="search:long-scripts")
     stream_diff(ctx, ctx.n(1500, 6000), "search:clean-grammar", clean=True)
     stream_any_string(ctx, ctx.n(1500, 6000), name="search:any-string")
 
